@@ -2,7 +2,10 @@
 
 package simhook
 
-import "sync"
+import (
+	"sync"
+	"unsafe"
+)
 
 // Enabled reports whether the hooks are compiled in.
 const Enabled = true
@@ -13,6 +16,19 @@ const Enabled = true
 // Handler must be installed before any goroutine that reaches a hook is started.
 var Handler func(point string, try func() bool)
 
+// GateHandler, when non-nil, is called for lock gates instead of Handler and is also told which mutex is about to be
+// acquired and how, so that a simulator can give a sync.RWMutex its writer preference (a reader does not overtake a
+// writer that is already waiting).
+var GateHandler func(point string, mu unsafe.Pointer, read bool, try func() bool)
+
+func gate(point string, mu unsafe.Pointer, read bool, try func() bool) {
+	if gh := GateHandler; gh != nil {
+		gh(point, mu, read, try)
+	} else if h := Handler; h != nil {
+		h(point, try)
+	}
+}
+
 // Yield marks a point where a simulator may switch to another goroutine.
 func Yield(point string) {
 	if h := Handler; h != nil {
@@ -22,8 +38,8 @@ func Yield(point string) {
 
 // BeforeLock is called immediately before mu.Lock().
 func BeforeLock(point string, mu *sync.RWMutex) {
-	if h := Handler; h != nil {
-		h(point, func() bool {
+	if Handler != nil || GateHandler != nil {
+		gate(point, unsafe.Pointer(mu), false, func() bool {
 			if mu.TryLock() {
 				mu.Unlock()
 				return true
@@ -35,8 +51,8 @@ func BeforeLock(point string, mu *sync.RWMutex) {
 
 // BeforeRLock is called immediately before mu.RLock().
 func BeforeRLock(point string, mu *sync.RWMutex) {
-	if h := Handler; h != nil {
-		h(point, func() bool {
+	if Handler != nil || GateHandler != nil {
+		gate(point, unsafe.Pointer(mu), true, func() bool {
 			if mu.TryRLock() {
 				mu.RUnlock()
 				return true
@@ -48,8 +64,8 @@ func BeforeRLock(point string, mu *sync.RWMutex) {
 
 // BeforeMutex is called immediately before mu.Lock().
 func BeforeMutex(point string, mu *sync.Mutex) {
-	if h := Handler; h != nil {
-		h(point, func() bool {
+	if Handler != nil || GateHandler != nil {
+		gate(point, unsafe.Pointer(mu), false, func() bool {
 			if mu.TryLock() {
 				mu.Unlock()
 				return true
@@ -63,7 +79,7 @@ func BeforeMutex(point string, mu *sync.Mutex) {
 // mu is a pointer to (or a pointer to a pointer to) a sync.Mutex or sync.RWMutex, read selects RLock.
 // Anything else is treated as a plain yield point.
 func Gate(point string, mu any, read bool) {
-	if Handler == nil {
+	if Handler == nil && GateHandler == nil {
 		return
 	}
 	switch m := mu.(type) {
